@@ -152,6 +152,8 @@ class TypeEnv:
                 return OptTy(l)
             if l == NONE:
                 return OptTy(r)
+            if l == r:
+                return l   # e.g. list[PVEvent] | list[dict[str, Any]] once PVEvent is modelled as the dict it is
             raise Unsupported("union type", n)
         if isinstance(n, ast.Subscript):
             head = n.value.id if isinstance(n.value, ast.Name) else getattr(n.value, "attr", "?")
@@ -280,7 +282,10 @@ class Engine:
             self.seq_ty_by_sort.setdefault(ty.name, ty)
         return self.pre.sort(ty)
 
+    fresh_serial = 0
+
     def fresh(self, base: str, ty: Ty) -> V:
+        self.fresh_serial += 1
         return V(self.pre.fresh(base, self.sort(ty)), ty)
 
     def strlit(self, s: str) -> V:
@@ -710,14 +715,49 @@ class Engine:
             return st.env["$yielded"]  # ghost: the values a generator function has yielded so far
         if n.id in self.consts:
             return self.consts[n.id]
+        if n.id in getattr(self, "ghost_globals", {}):
+            # a ghost global (e.g. the file system): one object, the same in every function and clause
+            rec = self.ghost_globals[n.id]
+            return V(z3.Const(f"ghost${n.id}", self.sort(rec)), rec)
         if n.id in ("True", "False"):
             return V(z3.BoolVal(n.id == "True"), BOOL)
         raise Unsupported(f"unknown name {n.id}", n)
 
     def e_JoinedStr(self, n: ast.JoinedStr, st: State) -> V:
-        # f-strings only occur in messages; each is an opaque fresh string
-        self.dropped.append(f"f-string at line {n.lineno} treated as an opaque string")
-        return self.fresh("fstr", STR)
+        """An f-string is an uninterpreted *function* of its interpolated values (one symbol per template text and argument
+        sorts): the same template over equal values is the same string, in code and in clauses alike; nothing else is known
+        about it (a sidecar may state injectivity in named positions as a trusted assumption, see FSTRING_INJECTIVE)."""
+        template = ""
+        parts: list[V] = []
+        try:
+            for v in n.values:
+                if isinstance(v, ast.Constant):
+                    template += str(v.value).replace("{", "{{").replace("}", "}}")
+                else:
+                    assert isinstance(v, ast.FormattedValue)
+                    spec = ast.unparse(v.format_spec) if v.format_spec is not None else ""
+                    template += "{" + ("!" + chr(v.conversion) if v.conversion != -1 else "") + (":" + spec if spec else "") + "}"
+                    pv = self.expr(v.value, st)
+                    if getattr(pv, "empty_lit", False) or pv.ty == NONE:
+                        raise Unsupported("f-string part", v)
+                    parts.append(pv)
+        except Unsupported:
+            self.dropped.append(f"f-string at line {getattr(n, 'lineno', '?')} treated as an opaque string")
+            return self.fresh("fstr", STR)
+        tag = hashlib.sha1((template + "|" + "|".join(p.ty.name for p in parts)).encode()).hexdigest()[:8]
+        fn = self.pre.func(f"fstr_{tag}", *[self.sort(p.ty) for p in parts], self.pre.Str)
+        inj = getattr(self, "fstring_injective", {}).get(template)
+        key = f"fstr.{tag}.inj"
+        if inj and key not in self.pre._done:
+            self.pre._done.add(key)
+            xs = [z3.Const(f"fs_x{i}_{tag}", self.sort(p.ty)) for i, p in enumerate(parts)]
+            for pos in inj:
+                inv = self.pre.func(f"fstr_{tag}_inv{pos}", self.pre.Str, self.sort(parts[pos].ty))
+                self.pre.ax(f"{key}{pos}", z3.ForAll(xs, inv(fn(*xs)) == xs[pos], patterns=[fn(*xs)]))
+            self.trusted_used.add(f"the f-string {template!r} determines its interpolated value(s) at position(s) {list(inj)} (stated by the sidecar)")
+        if not parts:
+            return self.strlit(template.replace("{{", "{").replace("}}", "}"))
+        return V(fn(*[p.t for p in parts]), STR)
 
     def e_Attribute(self, n: ast.Attribute, st: State) -> V:
         obj = self.expr(n.value, st)
@@ -1026,6 +1066,94 @@ class Engine:
             m = self.pre.mapf(ty, "store")(m, self.coerce(k, ty.key).t, self.coerce(v, ty.val).t)
         return V(m, ty)
 
+    def closed_dictcomp(self, n: ast.DictComp, gen: ast.comprehension, xs: V, st: State) -> Any:
+        """{k(x): v(x) for x in xs if p(x)} with closed key / value / filter expressions denotes a *function* of the iterated
+        sequence (and of the free variables): one global symbol D per alpha-normalised text with the axioms
+            produced:  0 <= i < len(q) and p(q[i])              ==>  k(q[i]) in D(q)  and  i <= last(q, k(q[i]))
+            witness:   x in D(q)  ==>  l = last(q, x) is in range, p(q[l]), k(q[l]) == x, D(q)[x] == v(q[l])
+        (the last producer of a key wins; the insertion order of the keys is left unspecified)."""
+        import hashlib as _h
+        tnames = [x.id for x in ast.walk(gen.target) if isinstance(x, ast.Name)]
+        ren = {nm: f"_v{i}" for i, nm in enumerate(tnames)}
+        free: list[str] = []
+        for part in [n.key, n.value] + list(gen.ifs):
+            for x in ast.walk(part):
+                if isinstance(x, ast.Name) and x.id not in ren and x.id not in free:
+                    known = (x.id in self.specs or x.id in self.builtins or x.id in self.contracts or x.id in self.consts
+                             or x.id in self.tenv.records or x.id in self.tenv.aliases or x.id in ("True", "False", "None"))
+                    if not known:
+                        free.append(x.id)
+        if any(nm not in st.env for nm in free):
+            return None
+        pvals = [st.env[nm] for nm in free]
+        for i, nm in enumerate(free):
+            ren[nm] = f"_p{i}"
+
+        class _R(ast.NodeTransformer):
+            def visit_Name(s_, node: ast.Name) -> Any:  # noqa: N805
+                return ast.copy_location(ast.Name(id=ren.get(node.id, node.id), ctx=node.ctx), node)
+
+        def norm(e: ast.AST) -> str:
+            return ast.unparse(_R().visit(copy.deepcopy(e)))
+        text = f"dict|{xs.ty.name}|{[p.ty.name for p in pvals]}|{norm(gen.target)}|{norm(n.key)}|{norm(n.value)}|{[norm(c) for c in gen.ifs]}"
+        tag = _h.sha1(text.encode()).hexdigest()[:8]
+        cache = self.__dict__.setdefault("_closed_dcomp", {})
+        if tag in cache:
+            ent = cache[tag]
+            return None if ent is None else (lambda xt, _f=ent[0], _p=pvals: _f(xt, *[p.t for p in _p]), ent[1])
+        cache[tag] = None
+        S = self.sort(xs.ty)
+        q = V(z3.Const(f"dq_{tag}", S), xs.ty)
+        pcs = [V(z3.Const(f"dp{i}_{tag}", self.sort(p.ty)), p.ty) for i, p in enumerate(pvals)]
+        bv = z3.Int(f"dqi_{tag}")
+        gst = State()
+        for nm, pc in zip(free, pcs):
+            gst.env[nm] = pc
+        saved_mode, saved_pr, saved_fr = self.mode_spec, self.pending_raises, getattr(self, "fields_read", None)
+        self.mode_spec, self.pending_raises, self.fields_read = True, [], set()
+        try:
+            gst.env.update(self.bind_target(gen.target, self.seq_idx(q, bv)))
+            serial0 = self.fresh_serial
+            conds = [self.truthy(self.expr(c, gst)) for c in gen.ifs]
+            gst.pc += conds
+            kv = self.expr(n.key, gst)
+            vv = self.expr(n.value, gst)
+            reads = set(self.fields_read)
+            if self.fresh_serial != serial0:
+                return None
+        except (Unsupported, ContractError, KeyError):
+            return None
+        finally:
+            self.mode_spec, self.pending_raises, self.fields_read = saved_mode, saved_pr, saved_fr
+        if any(f in rec.mutable for (rec, f) in reads) or getattr(vv, "empty_lit", False):
+            return None
+        ty = MapTy(kv.ty, vv.ty)
+        M = self.sort(ty)
+        psorts = [self.sort(p.ty) for p in pvals]
+        fn_raw = z3.Function(f"dcomp_{tag}", S, *psorts, M)
+        last_raw = z3.Function(f"dlast_{tag}", S, self.sort(ty.key), *psorts, T.I)
+        pts = [pc.t for pc in pcs]
+        D = fn_raw(q.t, *pts)
+        has, get = self.pre.mapf(ty, "has"), self.pre.mapf(ty, "get")
+        ln_x, idx_x = self.pre.seqf(xs.ty, "len"), self.pre.seqf(xs.ty, "idx")
+        i = z3.Int(f"dgi_{tag}")
+        x = z3.Const(f"dgx_{tag}", self.sort(ty.key))
+        cond_at = lambda j: z3.substitute(z3.And(*conds), (bv, j)) if conds else z3.BoolVal(True)  # noqa: E731
+        key_at = lambda j: z3.substitute(kv.t, (bv, j))  # noqa: E731
+        val_at = lambda j: z3.substitute(vv.t, (bv, j))  # noqa: E731
+        last = lambda k_: last_raw(q.t, k_, *pts)  # noqa: E731
+        A = self.pre.ax
+        inb = z3.And(0 <= i, i < ln_x(q.t))
+        A(f"dcomp.{tag}.produced", z3.ForAll([q.t, i] + pts, z3.Implies(z3.And(inb, cond_at(i)), z3.And(has(D, key_at(i)), i <= last(key_at(i)))),
+                                             patterns=[z3.MultiPattern(D, idx_x(q.t, i))]))
+        A(f"dcomp.{tag}.witness", z3.ForAll([q.t, x] + pts, z3.Implies(has(D, x), z3.And(
+            0 <= last(x), last(x) < ln_x(q.t), cond_at(last(x)), key_at(last(x)) == x, get(D, x) == val_at(last(x)))),
+            patterns=[has(D, x), get(D, x)]))
+        self.trusted_used.add("dict comprehensions over closed key/value/filter expressions denote functions of the iterated sequence "
+                              "(keys are exactly the produced keys, the last producer wins; key order unspecified)")
+        cache[tag] = (fn_raw, ty)
+        return (lambda xt, _f=fn_raw, _p=pvals: _f(xt, *[p.t for p in _p])), ty
+
     def e_DictComp(self, n: ast.DictComp, st: State) -> V:
         """{k(x): v(x) for x in xs}: a fresh map d with
              forall p in range(len(xs)): k(xs[p]) in d                (and d[k] is v of the *last* such p)
@@ -1036,6 +1164,31 @@ class Engine:
         gen = n.generators[0]
         k = self.site()
         xs = self.as_seq(self.expr(gen.iter, st), st)
+        closed = self.closed_dictcomp(n, gen, xs, st)
+        if closed is not None:
+            gfn, gty = closed
+            # exceptions of the key / value expressions on some element, lifted over the index
+            bv = z3.Int(f"di${k}")
+            st2 = st.fork()
+            st2.old = st.old
+            st2.env.update(self.bind_target(gen.target, self.seq_idx(xs, bv)))
+            st2.pc.append(z3.And(0 <= bv, bv < self.seq_len(xs)))
+            saved = self.pending_raises
+            self.pending_raises = []
+            for c in gen.ifs:
+                st2.pc.append(self.truthy(self.expr(c, st2)))
+            self.expr(n.key, st2)
+            self.expr(n.value, st2)
+            inner = self.pending_raises
+            self.pending_raises = saved
+            base = len(st.pc)
+            for (pc_at, neg, exc, what) in inner:
+                local = pc_at[base:]
+                raise_cond = z3.Exists([bv], z3.And(*local, neg))
+                self.pending_raises.append((list(st.pc), raise_cond, exc, f"{what} (in dict comprehension)"))
+                st.pc.append(z3.Not(raise_cond))
+                st.pc.append(z3.ForAll([bv], z3.Implies(z3.And(*local), z3.Not(neg))))
+            return V(gfn(xs.t), gty)
         named = self.fresh(f"dsrc{k}", xs.ty)
         self.assume(st, named.t == xs.t)
         self.assume(st, self.seq_len(xs) >= 0)  # keeps the source term in the e-graph as a ground term
@@ -1254,9 +1407,12 @@ class Engine:
         # axiomatically true (`touch`), which leaves the meaning unchanged
         for c in self.last_cands:
             g = z3.And(g, self.touch(c))
-        if universal:
-            return z3.ForAll(bvs, z3.Implies(g, body), patterns=pats) if pats else z3.ForAll(bvs, z3.Implies(g, body))
-        return z3.Exists(bvs, z3.And(g, body), patterns=pats) if pats else z3.Exists(bvs, z3.And(g, body))
+        try:
+            if universal:
+                return z3.ForAll(bvs, z3.Implies(g, body), patterns=pats) if pats else z3.ForAll(bvs, z3.Implies(g, body))
+            return z3.Exists(bvs, z3.And(g, body), patterns=pats) if pats else z3.Exists(bvs, z3.And(g, body))
+        except z3.Z3Exception:   # a candidate trigger is not admissible (e.g. it contains an ite): let the solver choose
+            return z3.ForAll(bvs, z3.Implies(g, body)) if universal else z3.Exists(bvs, z3.And(g, body))
 
     def index_patterns(self, bvs: list[Any], fs: list[Any]) -> list[Any]:
         """Explicit triggers for `all(... for i in range(n))`-style quantifiers: the
@@ -1362,7 +1518,7 @@ class Engine:
         xs = self.as_seq(coll, st)
         xs_orig = xs
         gfn = self.closed_comprehension(n, gen, xs, st)
-        if not (z3.is_const(xs.t) and xs.t.decl().kind() == z3.Z3_OP_UNINTERPRETED):
+        if gfn is None and not (z3.is_const(xs.t) and xs.t.decl().kind() == z3.Z3_OP_UNINTERPRETED):
             # name the source so that it can occur in (ite-free) patterns
             named = self.fresh(f"csrc{k}", xs.ty)
             self.assume(st, named.t == xs.t)
@@ -1376,15 +1532,20 @@ class Engine:
         st2.pc.append(inb)
         saved = self.pending_raises
         self.pending_raises = []
+        serial0 = self.fresh_serial
         conds = [self.truthy(self.expr(c, st2)) for c in gen.ifs]
         for c in conds:
             st2.pc.append(c)
         elt = self.expr(n.elt, st2)
         inner = self.pending_raises
         self.pending_raises = saved
+        if self.fresh_serial != serial0 and gfn is None:
+            # a constant introduced while evaluating the element does not depend on the index: `r[i] == elt` would equate all elements
+            raise Unsupported("comprehension element that introduces its own defined value (nested non-closed comprehension, dict/set comprehension)", n)
         # possible exceptions of the body, lifted over the index
+        base = len(st.pc)
         for (pc_at, neg, exc, what) in inner:
-            local = pc_at[len(st.pc):]
+            local = pc_at[base:]
             raise_cond = z3.Exists([bv], z3.And(*local, neg))
             self.pending_raises.append((list(st.pc), raise_cond, exc, f"{what} (in comprehension)"))
             st.pc.append(z3.Not(raise_cond))
@@ -1472,10 +1633,13 @@ class Engine:
         self.fields_read = set()
         try:
             gst.env.update(self.bind_target(gen.target, self.seq_idx(q, bv)))
+            serial0 = self.fresh_serial
             conds = [self.truthy(self.expr(c, gst)) for c in gen.ifs]
             gst.pc += conds  # the element expression is evaluated under the filter
             elt = self.expr(n.elt, gst)
             reads = set(self.fields_read)
+            if self.fresh_serial != serial0:
+                return None   # the element is not a pure term of the loop target (it introduced a constant of its own)
         except (Unsupported, ContractError, KeyError):
             return None
         finally:
@@ -1676,6 +1840,24 @@ class Engine:
                     raise Unsupported(f"{name}(...) must give exactly the fields {list(sty.fields)} by keyword", n)
                 kws = {kw.arg: self.coerce(self.expr(kw.value, st), sty.fields[kw.arg]) for kw in n.keywords}  # evaluation order = source order
                 return V(self.pre.struct_mk(sty, [kws[f].t for f in sty.fields]), sty)
+            if isinstance(self.tenv.aliases.get(name), MapTy) and not n.args:
+                # a TypedDict class called with keywords is the dict literal {keyword: value, ...} (in keyword order)
+                mty = self.tenv.aliases[name]
+                m = self.pre.fn[f"empty_{mty.name}"] if self.sort(mty) is not None else None
+                items = []
+                for kw in n.keywords:
+                    if kw.arg is None:
+                        raise Unsupported(f"{name}(**mapping)", n)
+                    v = self.expr(kw.value, st)
+                    if getattr(v, "empty_lit", False):
+                        raise Unsupported(f"{name}(...) with an untyped empty literal", n)
+                    kv = self.strlit(kw.arg)
+                    vv = self.coerce(v, mty.val)
+                    items.append((kv, vv))
+                    m = self.pre.mapf(mty, "store")(m, kv.t, vv.t)
+                r = V(m, mty)
+                r.lit_items = items
+                return r
             if name in self.contracts:
                 return self.call_contract(self.contracts[name], n, st, None)
             helper = self.find_inlinable(name)
